@@ -44,6 +44,30 @@ def arg_exprs(name: str, arity: int) -> List[str]:
     return args
 
 
+def partner(name: str, arity: int) -> str:
+    """another documented function of the same arity (for the `pair` position)"""
+    if name in ("ldexp", "scalbn", "scalbln"):
+        return "ldexp" if name != "ldexp" else "scalbn"
+    cand = {1: ["sin", "cos"], 2: ["atan2", "fmod"], 3: ["fma", "fma"]}.get(arity, ["sin", "cos"])
+    return cand[0] if name != cand[0] else cand[1]
+
+
+def outer_of(name: str) -> str:
+    return "sinh" if name == "cosh" else "cosh"
+
+
+def call_args(text: str, fn: str) -> List[str]:
+    """argument texts of every `fn(` call in the emitted code (balanced parentheses)"""
+    out = []
+    for m in re.finditer(re.escape(fn) + r"\(", text):
+        depth, i = 1, m.end()
+        while i < len(text) and depth:
+            depth += {"(": 1, ")": -1}.get(text[i], 0)
+            i += 1
+        out.append(text[m.end():i - 1])
+    return out
+
+
 def make_query(name: str, arity: int, position: str) -> str:
     if position == "intarg":
         # every argument is an integer-typed expression: the result must still be a double column
@@ -61,6 +85,16 @@ def make_query(name: str, arity: int, position: str) -> str:
         args[0] = 'e.Muons("muons").First().pt()'
         args = [a.replace("m.eta()", "2.5").replace("m.phi()", "1.5") for a in args]
         return f"ds.Select(lambda e: (1 + {name}({', '.join(args)}), e.Muons(\"muons\").Count()))"
+    if position == "pair" and name != "nan":
+        # two columns that differ only in the documented function under an equal outer call: each keeps its own function
+        other = partner(name, arity)
+        args = ", ".join(arg_exprs(name, arity))
+        return f'ds.SelectMany(lambda e: e.Muons("muons")).Select(lambda m: ({outer_of(name)}({name}({args})), {outer_of(name)}({other}({args}))))'
+    if position == "shadow" and name != "nan":
+        # the same call text under two different bindings of the same parameter name: each applies to its own object
+        args = ", ".join(arg_exprs(name, arity))
+        return (f'ds.Select(lambda e: e.Muons("muons").Select(lambda m: {name}({args}) * '
+                f'e.Muons("others").Select(lambda m: {name}({args})).Sum()))')
     if position == "arith":
         call = f"({call} * 2 + m.pt()) / 3"
     return f'ds.Select(lambda e: e.Muons("muons").Select(lambda m: {call}))'
@@ -129,7 +163,7 @@ def check(tier: str, seed: int, t0: float, build: core.BuildStatus) -> int:
             audit = [[n, "?", [], "false", []] for n in parse_readme()]
         except Exception:  # noqa: BLE001
             audit = []
-    positions = ["alone", "arith", "intarg", "nested", "first"]
+    positions = ["alone", "arith", "intarg", "nested", "first", "pair", "shadow"]
     smodel = core.Model() if build.model_ok else None
     distinct = set()
     per_name: Dict[str, Dict[str, Any]] = {}
@@ -183,6 +217,23 @@ def check(tier: str, seed: int, t0: float, build: core.BuildStatus) -> int:
                             key=f"c12:first-arg-scope:{name}", what=f"1 + {name}(<value of First()>) on {backend}: the emitted code is not well-scoped ({bad_scope[0][:120]})",
                             replay={**replay, "static_checker": bad_scope[:4]}))
                         continue
+                if pos == "pair" and name != "nan" and arity != 3:
+                    oth = "std::" + partner(name, n_query_args)
+                    inner = [a.split("(")[0] for a in call_args(text, "std::" + outer_of(name))]
+                    if sorted(inner) != sorted([want[0], oth]):
+                        oc.violations.append(core.Violation(
+                            key=f"c12:pair-confused:{name}",
+                            what=f"({outer_of(name)}({name}(..)), {outer_of(name)}({partner(name, n_query_args)}(..))) on {backend}: the two outer calls apply to {inner}, expected one {want[0]} and one {oth}",
+                            replay=replay))
+                        continue
+                if pos == "shadow" and name != "nan":
+                    argts = call_args(text, want[0])
+                    if len(argts) != 2 or argts[0] == argts[1]:
+                        oc.violations.append(core.Violation(
+                            key=f"c12:shadow-confused:{name}",
+                            what=f"{name}(m..) * others.Select(lambda m: {name}(m..)).Sum() on {backend}: the two calls must apply to the two loops' own objects, emitted argument texts {argts}",
+                            replay=replay))
+                        continue
                 if pos == "nested" and name != "nan" and not ({"std::cosh", "std::fabs"} <= set(calls)):
                     oc.violations.append(core.Violation(
                         key=f"c12:nested-call-lost:{name}", what=f"cosh({name}(fabs(..))) on {backend}: emitted calls {calls} do not contain all three functions",
@@ -216,7 +267,7 @@ def check(tier: str, seed: int, t0: float, build: core.BuildStatus) -> int:
     if smodel is not None:
         smodel.close()
     oc.distinct_nontrivial = len(distinct)
-    oc.rule = ("every documented name (README list, regenerated) x 3 backends x {standalone, inside (f(..)*2+x)/3, with integer-typed arguments (column must be double), nested cosh(f(fabs(..))), 1 + f(<value of First()>) with the C02 scope checker on the emitted program}; arity from the cmath signature table; "
+    oc.rule = ("every documented name (README list, regenerated) x 3 backends x {standalone, inside (f(..)*2+x)/3, with integer-typed arguments (column must be double), nested cosh(f(fabs(..))), 1 + f(<value of First()>) with the C02 scope checker on the emitted program, a pair of columns (cosh(f(x)), cosh(g(x))), the same call under two bindings of one parameter name}; arity from the cmath signature table; "
                "non-trivial = every query (each goes through name resolution, emission and include handling); distinct by query text")
     oc.samples = [make_query("atan2", 2, "arith"), make_query("floor", 1, "alone"), make_query("nan", 1, "alone")]
     oc.exhaustive = True
